@@ -88,6 +88,24 @@ pub fn watch_clear() {
     HIT.with(|h| h.set(None));
 }
 
+/// Whether `addr` lies in a block freed during this run (still quarantined).
+pub fn is_freed(addr: usize) -> bool {
+    let mut head = HEAD.with(|h| h.get());
+    unsafe {
+        while !head.is_null() {
+            let c = &*head;
+            for i in 0..c.len {
+                let (p, size, _, _) = c.items[i];
+                if (p as usize) <= addr && addr < p as usize + size {
+                    return true;
+                }
+            }
+            head = c.next;
+        }
+    }
+    false
+}
+
 /// The first free of watched memory since the last call, if any.
 pub fn take_hit() -> Option<WatchHit> {
     HIT.with(|h| h.take())
